@@ -22,6 +22,9 @@ PROFILE = scenario.profile(
     target_kinds=("quad", "quad", "l1", "maxn", "plateau", "plateau", "rosen", "linear"),
     c_classes=("inside", "inside", "hardbox", "on_bound", "outside", "far"),
     cons_x0=("margin",),
+    # stobads=True keeps the default policy for deterministic targets (the code switches it off once the target is
+    # found to be deterministic), so it is inside the statement's domain
+    extra_opts=(("stobads", (True,), 0.15),),
 )
 PROFILE_T = dict(PROFILE, maxD=6, extra_budget=(0, 250))
 N = {"quick": 320, "thorough": 5000}
